@@ -34,6 +34,12 @@ The driver cannot score spectra; what the model predicts is the *relation* betwe
   order-free: `par_sum_any_tree`); agree: bit-identical, because no parallel float reduction is left
   on the `score_psms` path since /repo 2c91348.
 
+* (`accumulate_any_split`, `reduce_any_tree`) `batch` only — each run is followed by
+  `[F #MS1 per file_id…] mOrd mSet nQuant qOrd qSet`: the MS1 scans kept per file are the input's (`z = 255` scans of
+  the request), with the reference's digests (spec: `bad:ms1_scans_lost`, `bad:ms1_thread_dependent`;
+  the ordered digest is part of `agree` only); the TMT rows are those of the reference
+  (`bad:quant_thread_dependent`; order in `agree`).
+
 `agree` is the conjunction of these; the model column shows `K nPSM base` and the first run's digests.
 `spec` evaluates the property's clauses on the implementation's reply alone.
 -/
@@ -46,21 +52,33 @@ structure Run where
   dOrd : Nat
   dSet : Nat
   rows : List (Nat × Nat × Nat × Nat × Nat)     -- key rank id file file_id
+  /-- `batch` only: MS1 side of the `SageResults` — #MS1 scans per file_id, ordered digest, multiset digest -/
+  ms1 : Option (List Nat × Nat × Nat) := none
+  /-- `batch` only: TMT side — number of quant rows, ordered digest, multiset digest -/
+  quant : Option (Nat × Nat × Nat) := none
 deriving Repr
 
 def Run.obs (r : Run) : Obs :=
   { dOrd := r.dOrd, dSet := r.dSet, rows := r.rows.map (fun (k, rk, id, _, _) => (k, rk, id)) }
 
-def pRun : P Run := do
+def pRun (withMs1 : Bool) : P Run := do
   let a ← nat; let b ← nat; let dOrd ← nat; let dSet ← nat
   let rows ← list (do
     let k ← nat; let rk ← nat; let id ← nat; let f ← nat; let fid ← nat
     pure (k, rk, id, f, fid))
-  pure { a, b, dOrd, dSet, rows }
+  if withMs1 then
+    let counts ← list nat
+    let mOrd ← nat; let mSet ← nat
+    let nq ← nat; let qOrd ← nat; let qSet ← nat
+    pure { a, b, dOrd, dSet, rows, ms1 := some (counts, mOrd, mSet), quant := some (nq, qOrd, qSet) }
+  else
+    pure { a, b, dOrd, dSet, rows }
 
 structure Request where
   nfiles : Nat
   nspectra : Nat
+  /-- number of MS1 scans (`z = 255`) of every input file, in file order -/
+  ms1Counts : List Nat
   configs : List (Nat × Nat)
   reps : Nat
 
@@ -68,13 +86,14 @@ def pRequest : P Request := do
   let _fasta ← tok
   let _cfg ← listN int 18
   let files ← list (list (do
-    let _ ← nat; let _ ← nat; let _ ← nat
+    let _ ← nat; let z ← nat; let _ ← nat
     let _ ← list (do let _ ← nat; let _ ← nat; pure ())
-    pure ()))
+    pure z))
   let configs ← list (do let a ← nat; let b ← nat; pure (a, b))
   let reps ← nat
   let _seed ← nat
-  pure { nfiles := files.length, nspectra := (files.map List.length).sum, configs, reps }
+  pure { nfiles := files.length, nspectra := (files.map List.length).sum,
+         ms1Counts := files.map (fun f => (f.filter (· == 255)).length), configs, reps }
 
 /-- the model's `file_id` of every file position for a batch size (`none` = the `chunks(0)` panic) -/
 def fileIds (bs nfiles : Nat) : Option (List Nat) :=
@@ -112,7 +131,25 @@ def specOf (req : Request) (runs : List Run) : String :=
   then "bad:foreign_psm"
   -- file_id must be the global position of the file whatever the batching
   else if runs.any (fun r => r.rows.any (fun (_, _, _, f, fid) => f != fid)) then "bad:file_id"
-  else specSearch (runs.map Run.obs)
+  else
+  let s := specSearch (runs.map Run.obs)
+  if s != "ok" then s else
+  -- the MS1 scans that reach LFQ: per file exactly the input's, whatever the pool / batch size
+  match runs with
+  | [] => "ok"
+  | ref :: _ =>
+    if runs.any (fun r => match r.ms1 with | some (c, _, _) => c != req.ms1Counts | none => false)
+    then "bad:ms1_scans_lost"
+    else if runs.any (fun r => match r.ms1, ref.ms1 with
+                               | some (_, _, mSet), some (_, _, mSet0) => mSet != mSet0
+                               | _, _ => false)
+    then "bad:ms1_thread_dependent"
+    -- the TMT rows: the same multiset as the unbatched sequential reference
+    else if runs.any (fun r => match r.quant, ref.quant with
+                               | some (n, _, qSet), some (n0, _, qSet0) => n != n0 || qSet != qSet0
+                               | _, _ => false)
+    then "bad:quant_thread_dependent"
+    else "ok"
 
 /-! ### `downstream` -/
 
@@ -173,9 +210,11 @@ def handle (op : String) (args impl : List String) : Option Reply :=
     let modelPanics := isBatch && bss.any (· == 0)
     if impl == ["panic"] then
       -- `chunks(0)` is the only modelled panic
-      pure { model := if modelPanics then "panic" else "no-panic", agree := modelPanics, spec := "na" }
+      -- a panic on an input the sequential reference handles is a result that depends on the pipeline
+      pure { model := if modelPanics then "panic" else "no-panic", agree := modelPanics,
+             spec := if modelPanics then "na" else "bad:unexpected_panic" }
     else
-    match run (list pRun) impl with
+    match run (list (pRun isBatch)) impl with
     | none => pure { model := "unparsable-impl-reply", agree := false, spec := "na" }
     | some runs =>
       let spec := specOf req runs
@@ -191,7 +230,14 @@ def handle (op : String) (args impl : List String) : Option Reply :=
         let ok := shapeOk && triples.all (fun ((r, b), bs) =>
           -- with no PSM at all there is no id to anchor the counter on
           if n == 0 then r.rows.isEmpty && r.dOrd == ref.dOrd && r.dSet == ref.dSet
-          else runAgrees ref b bs req.nfiles r)
+          else runAgrees ref b bs req.nfiles r) &&
+          -- MS1 side: the accumulator / SageResults machines concatenate in input order (`accumulate_any_split`,
+          -- `reduce_any_tree`): same ordered digest as the sequential reference, counts = the input's
+          runs.all (fun r => match r.ms1, ref.ms1 with
+            | some (c, mOrd, mSet), some (_, mOrd0, mSet0) => c == req.ms1Counts && mOrd == mOrd0 && mSet == mSet0
+            | none, none => true
+            | _, _ => false) &&
+          runs.all (fun r => r.quant == ref.quant)
         let model := s!"{expectedRuns} {n} {base} {ref.dOrd} {ref.dSet}"
         pure { model, agree := ok, spec }
 
